@@ -143,13 +143,20 @@ EmitLatin == \E n \in LatinNames :
                 \/ Out(Parse1(PathTextOf(<<Root, Dot(n)>>, Plain, LitFL), <<Root, Dot(n)>>))
                 \/ Out(Parse1(PathTextOf(<<Dot(n), Colon(n)>>, Plain, LitFL), <<Dot(n), Colon(n)>>))
 EmitOdd == (\E t \in OddPathTexts : Out(ParseAny("jp_parse", t))) \/ (\E t \in OddKpTexts : Out(ParseAny("kp_parse", t)))
+\* every byte-prefix of the odd texts and of renderings that carry escapes: input may stop anywhere
+EscStyles == {[ws |-> 0, kw |-> 0, quote |-> FALSE, nesc |-> 1], [ws |-> 0, kw |-> 0, quote |-> FALSE, nesc |-> 2], [ws |-> 0, kw |-> 0, quote |-> TRUE, esc |-> 1]}
+PrefixKp == OddKpTexts \cup {KeyPathText(kp, st) : kp \in {<<[n |-> kab], [q |-> kE]>>, <<[q |-> <<10, 240, 159, 152, 128>>], [n |-> ka], [i |-> -1]>>}, st \in EscStyles}
+PrefixJp == OddPathTexts \cup {PathTextOf(ps, st, LitFL) : ps \in {<<Root, Dot(kab), ObjF(kE)>>, <<Dot(ka), Colon(kab)>>,
+                                                                  <<Root, FilterSt(EBin("eq", EPaths(<<Cur, Dot(kab)>>), EVal(PStr(<<240, 159, 152, 128, 9>>))))>>}, st \in EscStyles}
+EmitPrefixes == (\E t \in PrefixKp : \E k \in 0..Len(t) : Out(ParseAny("kp_parse", Sub(t, 1, k))))
+                \/ (\E t \in PrefixJp : \E k \in 0..Len(t) : Out(ParseAny("jp_parse", Sub(t, 1, k))))
 
 Init == stage = "start" /\ scr = [op |-> "none"]
 Next ==
   /\ stage = "start"
   /\ CASE Family = "paths" -> EmitPaths
        [] Family = "pathfaults" -> EmitPathFaults
-       [] Family = "soup" -> EmitSoup \/ EmitSoup2 \/ EmitOdd
+       [] Family = "soup" -> EmitSoup \/ EmitSoup2 \/ EmitOdd \/ EmitPrefixes
        [] Family = "kp" -> EmitKp \/ EmitLatin
        [] Family = "kpfaults" -> EmitKpFaults
        [] OTHER -> FALSE
